@@ -680,6 +680,32 @@ pub fn main(args: &[String]) {
         }
     }
 
+    // ---- G8: several short paragraphs in one text (state must not leak across a separator: scratch buffers,
+    // isolate tracking, flags).  Paragraph heads and tails are biased to the characters whose treatment depends on
+    // "what came before / comes after": ET, NSM, numbers, removed characters, unclosed initiators, stray terminators.
+    {
+        let n8 = if thorough { 300000 } else { 40000 };
+        let heads = ["ET", "NSM", "EN", "AN", "PDI", "PDF", "BN", "ES", "CS", ")", "WS", "ON", "R", "AL", "L"];
+        let tails = ["BN", "PDF", "LRI", "RLI", "FSI", "RLE", "LRO", "NSM", "ET", "EN", "WS", "(", "R", "AL", "L", "PDF", "BN"];
+        let mids = ["L", "R", "AL", "EN", "AN", "ET", "ES", "CS", "NSM", "ON", "WS", "BN", "LRI", "RLI", "PDI", "RLE", "PDF", "(", ")"];
+        for _ in 0..n8 {
+            let npar = 2 + o.rng.below(3);
+            let mut items: Vec<Item> = Vec::new();
+            for pi in 0..npar {
+                let k0 = o.rng.below(4);
+                for j in 0..1 + o.rng.below(2) { let h = *o.rng.pick(&heads); items.push(Item::Ch(rep(sym(h), j + k0))); }
+                for j in 0..o.rng.below(4) { let m = *o.rng.pick(&mids); items.push(Item::Ch(rep(sym(m), j + k0))); }
+                for j in 0..1 + o.rng.below(3) { let t = *o.rng.pick(&tails); items.push(Item::Ch(rep(sym(t), j + k0))); }
+                if o.rng.chance(1, 2) { for j in 0..1 + o.rng.below(2) { let m = *o.rng.pick(&mids); items.push(Item::Ch(rep(sym(m), j))); } }
+                if pi + 1 < npar || o.rng.chance(1, 3) { items.push(Item::Ch(*o.rng.pick(B_CHARS))); }
+            }
+            let enc = if o.rng.chance(1, 6) { 16 } else { 8 };
+            let d = dir_of(o.rng.below(3));
+            let lines_ok = o.rng.chance(1, 8);
+            o.emit(&Case { enc, dir: d, items, ds: None, fam: "G8".into(), max_line_chars: if lines_ok { 3 } else { usize::MAX } });
+        }
+    }
+
     // ---- G6: long uniform runs with a perturbation next to a power-of-two code-unit offset ----------------
     // (block-wise "fast paths" over 8/16/32/64/128 units go wrong exactly there: a run boundary at a block
     // start, a removed character right after a block, a surrogate pair straddling a block end)
